@@ -35,7 +35,16 @@ def make_basis(spl, cfg, rng=None):
         breaks = np.array(cfg["breaks"], dtype=float)
     else:
         breaks = make_breaks(rng, cfg["ncells"], cfg["kind"], cfg.get("a"), cfg.get("b"))
-    knots = spl.make_knots(breaks, int(cfg["degree"]), bool(cfg["periodic"]))
+    if not cfg["periodic"] and int(cfg.get("seed", 0)) % 5 == 3 and not cfg.get("fast", False) and cfg.get("kind") != "uniform":
+        # break points that are exactly representable in single precision, handed over as a float32 array (clamped spaces only: no
+        # arithmetic is done on them while the knots are formed, so the space is the same one as for the float64 array)
+        breaks = breaks.astype(np.float32).astype(float)
+        if np.all(np.diff(breaks) > 0):
+            knots = spl.make_knots(breaks.astype(np.float32), int(cfg["degree"]), False)
+        else:
+            knots = spl.make_knots(breaks, int(cfg["degree"]), False)
+    else:
+        knots = spl.make_knots(breaks, int(cfg["degree"]), bool(cfg["periodic"]))
     uniform_flag = bool(cfg.get("fast", False)) or (cfg["kind"] == "uniform" and cfg.get("uniform_flag", False))
     # the flags and the degree as Python values or as their numpy counterparts (np.True_/np.False_, np.int64): a flag deduced from
     # an array comparison is a numpy bool, and `flag is True` is False for it
